@@ -417,3 +417,47 @@ def selfimport(repo):
     res.samples = [f"{f.name}: edge inserted for ordinary imports and for self-imports of real modules"]
     res.analysed = [DC]
     return res
+
+
+def cyclepath(repo):
+    """R-CYCLEPATH (C15/C16): the dependency graph of the cycle detector has an edge for the *first* component of a field
+    reference only (later components are unresolved when the pass runs).  A value that depends on itself through a later
+    component -- `struct Foo: ... 1 [+2] Foo f` / `let o = f.o` -- is therefore not a cycle of that graph; nothing reports
+    it and type checking follows `o -> f.o -> o` until RecursionError.  Decided: whether the recorder used by
+    _find_dependencies looks only at `path[0]` and no pass after `resolve_field_references` searches for cycles again."""
+    res = RuleResult("R-CYCLEPATH")
+    m = repo.mod(DC)
+    fd = [f for f in m.top_funcs() if f.name == "_find_dependencies"]
+    if not fd:
+        raise AnalysisError("dependency_checker._find_dependencies not found")
+    rec = None
+    for f in m.top_funcs():
+        ps = [a.arg for a in f.node.args.args]
+        if "dependencies" in ps and any(isinstance(n, ast.Subscript) and isinstance(n.value, ast.Attribute) and n.value.attr == "path"
+                                        for n in walk_no_nested_funcs(f.node)) and f.name in ast.unparse(fd[0].node):
+            rec = f
+    if rec is None:
+        raise AnalysisError("dependency_checker: the recorder of field-reference dependencies was not found")
+    subs = [n for n in walk_no_nested_funcs(rec.node) if isinstance(n, ast.Subscript) and isinstance(n.value, ast.Attribute) and n.value.attr == "path"]
+    first_only = all(isinstance(s_.slice, ast.Constant) and s_.slice.value == 0 for s_ in subs) and \
+        not any(isinstance(n, (ast.For, ast.comprehension)) and "path" in ast.unparse(n.iter) for n in walk_no_nested_funcs(rec.node))
+    glue = repo.mod("compiler/front_end/glue.py")
+    order = []
+    for n in ast.walk(glue.tree):
+        if isinstance(n, ast.Assign) and isinstance(n.targets[0], ast.Name) and n.targets[0].id == "passes" and isinstance(n.value, ast.Tuple):
+            order = [ast.unparse(e) for e in n.value.elts]
+    if not order:
+        raise AnalysisError("glue.process_ir: pass list not found")
+    res.instances = 2
+    try:
+        after = order[order.index("symbol_resolver.resolve_field_references") + 1:]
+    except ValueError:
+        raise AnalysisError("glue.process_ir: resolve_field_references not in the pass list")
+    rechecked = any("cycle" in p for p in after)
+    if first_only and not rechecked:
+        res.add(f"{DC}|{rec.name}|cycle-first-component-only", f"{rec.name} gives the cycle detector an edge for `reference.path[0]` only and "
+                "no pass after resolve_field_references looks for cycles again: `let o = f.o` with `f` of the enclosing structure's own "
+                "type depends on itself, is not rejected, and ends in RecursionError in type_check", DC, rec.line, rec.name)
+    res.samples = [f"first component only: {first_only}; cycle pass after field references are resolved: {rechecked}"]
+    res.analysed = [DC, glue.rel]
+    return res
